@@ -1,6 +1,7 @@
 package main
 
 import (
+	"encoding/json"
 	"context"
 	"flag"
 	"fmt"
@@ -58,6 +59,13 @@ func main() {
 		cmdList(os.Args[2:])
 	case "sync":
 		cmdSync(os.Args[2:])
+	case "props":
+		// the claimed properties as JSON (single source for MANIFEST.json: tools/mkmanifest.py)
+		enc := json.NewEncoder(os.Stdout)
+		enc.SetIndent("", " ")
+		enc.Encode(propTable)
+	case "replay":
+		cmdReplay(os.Args[2:])
 	default:
 		fmt.Fprintln(os.Stderr, "unknown command", os.Args[1])
 		os.Exit(2)
